@@ -221,8 +221,10 @@ def run(ck):
           gp = byname[g]
           gexp = semcheck.canon_model_rows(model['result'][g], gp)
           if g in needed:
-            if t is None and g not in scl[p.name]:
-              continue      # only mentioned inside aggregating expressions: may have been optimised away
+            if g not in scl[p.name]:
+              # only mentioned inside aggregating expressions: the compiler may drop the unused expression and then
+              # neither creates nor refreshes the table (which the sentinel of an earlier step may have emptied)
+              continue
             if t is None:
               ck.violation('c17:grounded-table-missing', 'step %d: after running %s the table of @Ground(%s) does not exist' % (step, p.name, g), rp)
               continue
